@@ -11,6 +11,8 @@ pub fn from_str_radix(src: &str, radix: u32) -> Result<UBig, ParseError>
         if !is_radix_valid(radix) {
             return Err(ParseError::UnsupportedRadix);
         }
+        /*@ let ghost s0 = src.b(); @*/
         let src = src.strip_prefix('+').unwrap_or(src);
+        /*@ proof { lemma_starts1(s0, PLUS()); assert(src.b() == drop_plus(s0)); } @*/
         UBig::from_str_radix_no_sign(src, radix)
 }
